@@ -73,8 +73,16 @@ class DuckIncompleteGame:
     def compute_bounds(self): pass
 
 
-def build_real(n, lo, up, known, style: int):
-    g = IncompleteCooperativeGame(n)
+_REUSE: dict = {}
+
+
+def build_real(n, lo, up, known, style: int, reuse_rng=None):
+    if reuse_rng is not None and n in _REUSE and reuse_rng.random() < 0.5:
+        g = _REUSE[n]                       # the same object re-filled: a memo keyed by identity / size would go stale
+        g.set_known_values([0.0], [Coalition(0)])
+    else:
+        g = IncompleteCooperativeGame(n)
+        _REUSE[n] = g
     size = 1 << n
     if style == 0:      # scalar setters
         for s in range(size):
@@ -151,7 +159,13 @@ def run_case(ctx, case) -> None:
         game = DuckIncompleteGame(n, lo, up, known)
         ctx.count("duck_typed_games")
     else:
-        game = build_real(n, lo, up, known, case["impl"] == "real_bulk")
+        game = build_real(n, lo, up, known, case["impl"] == "real_bulk", None if ctx.replay_mode else ctx.rng)
+        if ctx.rng.random() < 0.03:
+            try:
+                compute_exploitability(DuckIncompleteGame(n, lo[:-1], up, known))      # malformed game: raises mid-way
+            except Exception:
+                pass
+            ctx.count("poison_calls")
     try:
         got = float(compute_exploitability(game))
     except Exception as exc:
@@ -314,7 +328,7 @@ def run(ctx) -> None:
             known[0] = known[-1] = True
             run_case(ctx, {"n": n, "family": "unit", "lower": lo, "upper": up, "known": known,
                            "impl": rng.choice(["real_scalar", "real_bulk", "duck"])})
-    ns = [2, 3, 3, 4, 4, 5, 5, 6, 6, 7, 8] + ([9, 10] if not quick else [9])
+    ns = [2, 3, 3, 4, 4, 5, 5, 6, 6, 7, 8] + ([9, 10, 11, 12, 13, 14] if not quick else [9, 12])
     while not ctx.out_of_time(1.0):
         n = rng.choice(ns)
         fam, lo, up, known = gen_vector(rng, n)
